@@ -273,9 +273,9 @@ static void run_cycle(long id, uint64_t seed)
 	nthr = count_dir("/proc/self/task");
 	if (base_thr >= 0 && nthr > base_thr) {
 		/* a joined thread can stay visible in /proc for a moment after pthread_join returned (the kernel releases the task
-		 * after it cleared the join futex): look again for up to a second before calling it a leak */
+		 * after it cleared the join futex): look again for up to ten seconds before calling it a leak */
 		int tries;
-		for (tries = 0; tries < 200 && nthr > base_thr; tries++) {
+		for (tries = 0; tries < 2000 && nthr > base_thr; tries++) {
 			struct timespec ts = { 0, 5000000 };
 			nanosleep(&ts, NULL);
 			nthr = count_dir("/proc/self/task");
